@@ -70,6 +70,27 @@ class FakeTLSSocket(object):
     def unwrap(self):
         return self.raw
 
+    # TLS hands data over in records of up to 16384 octets: a read takes a whole record off the TCP socket, and what
+    # the caller did not ask for stays inside the TLS object (SSLSocket.pending()), invisible to a readiness poll of
+    # the file descriptor.  Modelled when the script says 'records': True.
+    RECORD_MAX = 16384
+
+    def recv(self, bufsize):
+        if not self.script.get('records'):
+            return self.raw.recv(bufsize)
+        held = self.__dict__.setdefault('_held', bytearray())
+        if not held:
+            data = self.raw.recv(self.RECORD_MAX)
+            if not data:
+                return data
+            held += data
+        out = bytes(held[:bufsize])
+        del held[:len(out)]
+        return out
+
+    def pending(self):
+        return len(self.__dict__.get('_held', b''))
+
     def __getattr__(self, name):
         return getattr(self.raw, name)
 
